@@ -27,7 +27,7 @@ pub fn world2() -> Hierarchy<Arc<Relation>> {
     ].into_iter().collect::<qrlew::relation::Schema>()).size(T1_SIZE).build();
     let t2: Relation = Relation::table().name("t2").schema(vec![
         ("a", DataType::integer_interval(0, 10), Some(Constraint::ForeignKey)), ("f", DataType::float_interval(-10., 10.), None),
-        ("g", DataType::text_values(["x".to_string(), "y".to_string(), "w".to_string()]), None),
+        ("g", DataType::text_values(["x".to_string(), "yé".to_string(), "w東京".to_string()]), None),   // multi-byte characters on purpose
     ].into_iter().collect::<qrlew::relation::Schema>()).size(T2_SIZE).build();
     let t3: Relation = Relation::table().name("t3").schema(vec![
         ("k", DataType::integer_interval(0, 3), Some(Constraint::Unique)), ("h", DataType::integer_interval(0, 100), None),
@@ -49,7 +49,7 @@ pub fn gen_data2(rng: &mut Rng) -> Data2 {
         t1.push(vec![Cell::Int(a), Cell::Int(b), Cell::Real(c), Cell::Text(d), e]); }
     let n2 = if rng.chance(1, 8) { 0 } else { rng.range(1, T2_SIZE) as usize };
     // duplicate and unmatched join keys
-    let t2: Vec<Vec<Cell>> = (0..n2).map(|_| vec![Cell::Int(*rng.pick(&[0i64, 1, 1, 2, 3, 10, 7])), Cell::Real(*rng.pick(&[-10.0, 10.0, 0.0, 2.5, -0.25])), Cell::Text(rng.pick(&["x", "y", "w"]).to_string())]).collect();
+    let t2: Vec<Vec<Cell>> = (0..n2).map(|_| vec![Cell::Int(*rng.pick(&[0i64, 1, 1, 2, 3, 10, 7])), Cell::Real(*rng.pick(&[-10.0, 10.0, 0.0, 2.5, -0.25])), Cell::Text(rng.pick(&["x", "yé", "w東京"]).to_string())]).collect();
     let n3 = rng.range(0, 4) as usize;
     let mut k3: Vec<i64> = (0..=3).collect();
     let mut w3: Vec<f64> = vec![1.2, 1.4, 2.5, 3.0, 0.0, 0.6, 4.0];
@@ -82,7 +82,10 @@ impl Data2 {
 struct Src { from: String, cols: Vec<(String, &'static str)> }   // (qualified column expression, kind: i/f/t)
 
 fn gen_source(rng: &mut Rng) -> Src {
-    match rng.below(10) {
+    match rng.below(11) {
+        // joins whose ON clause is the constant TRUE (inner and outer: an outer join keeps the preserved side when the other is empty)
+        10 => { let jt = *rng.pick(&["JOIN", "LEFT JOIN", "RIGHT JOIN", "FULL JOIN", "LEFT JOIN"]);
+                Src { from: format!("t3 {jt} t2 ON TRUE"), cols: vec![("t3.k".into(), "i"), ("t3.h".into(), "i"), ("t2.f".into(), "f"), ("t2.g".into(), "t"), ("t2.a".into(), "i")] } }
         0 | 1 | 2 => Src { from: "t1".into(), cols: vec![("a".into(), "i"), ("b".into(), "i"), ("c".into(), "f"), ("d".into(), "t"), ("e".into(), "i")] },
         3 => Src { from: "t2".into(), cols: vec![("a".into(), "i"), ("f".into(), "f"), ("g".into(), "t")] },
         4 | 5 => { let jt = *rng.pick(&["JOIN", "INNER JOIN", "LEFT JOIN", "RIGHT JOIN", "FULL JOIN"]);
@@ -115,7 +118,7 @@ fn gen_scalar(rng: &mut Rng, s: &Src, depth: u32) -> String {
         16 => { let o = pick_col(rng, s, "if").map(|c| c.0.clone()).unwrap_or("1".into()); format!("- ({num} - {o})") }
         // the mathematical and text functions the reader lists as supported
         12 => { let f = *rng.pick(&["sqrt(abs({x}))", "exp({x} / 10)", "ln(abs({x}) + 1)", "log10(abs({x}) + 1)", "sin({x})", "cos({x})", "round({x} / 3)", "sign({x})", "pow({x}, 2)", "trunc({x} / 3)", "{x} * {x}", "- {x}", "tan({x} / 20)", "log2(abs({x}) + 1)", "abs({x}) + sign({x})"]); f.replace("{x}", &num) }
-        13 => pick_col(rng, s, "t").map(|c| { let f = *rng.pick(&["lower({t})", "substr({t}, 1, 1)", "ltrim({t})", "rtrim({t})", "{t} || 'x'", "char_length({t})", "upper(lower({t}))", "concat(lower({t}), upper({t}))"]); f.replace("{t}", &c.0) }).unwrap_or(num),
+        13 => pick_col(rng, s, "t").map(|c| { let f = *rng.pick(&["lower({t})", "substr({t}, 1, 1)", "substr({t}, 2)", "substr({t}, 2, 1)", "substring({t} from 2 for 2)", "ltrim({t})", "rtrim({t})", "{t} || 'x'", "char_length({t})", "upper(lower({t}))", "concat(lower({t}), upper({t}))"]); f.replace("{t}", &c.0) }).unwrap_or(num),
         14 => format!("CASE WHEN {num} IS NULL THEN -1 WHEN {num} BETWEEN 1 AND 4 THEN 1 ELSE 0 END"),
         // several WHEN branches with overlapping conditions: the first match wins
         9 => { let (x, y) = (rng.range(0, 4), rng.range(3, 9)); format!("CASE WHEN {num} < {x} THEN 1 WHEN {num} < {y} THEN 2 WHEN {num} < {} THEN 3 ELSE 4 END", y + 2) }
@@ -468,7 +471,7 @@ pub fn gen_c08x(rng: &mut Rng, _k: usize, _tier: &str) -> J {
         (format!("WITH t AS (SELECT a AS a FROM t1 WHERE b > 0) SELECT s.x AS x FROM (WITH t AS (SELECT a + {} AS a FROM t1) SELECT a AS x FROM t) AS s", rng.range(1, 9)), false),
         (format!("WITH t AS (SELECT a AS a FROM t1), u AS (WITH t AS (SELECT a + {k} AS a FROM t2) SELECT a AS a FROM t) SELECT t.a AS x, u.a AS y FROM t JOIN u ON t.a + {k} = u.a", k = rng.range(1, 9)), false),
         ("WITH t AS (SELECT a AS a FROM t1 WHERE a > 3) SELECT s.x AS x, t.a AS y FROM (WITH t AS (SELECT a AS a FROM t1 WHERE a <= 3) SELECT a AS x FROM t) AS s JOIN t ON s.x + 4 = t.a".to_string(), false),
-        ("WITH t AS (SELECT d AS d FROM t1) SELECT q.n AS n FROM (WITH t AS (SELECT g AS d FROM t2) SELECT count(*) AS n FROM t WHERE d = 'w') AS q".to_string(), false),
+        ("WITH t AS (SELECT d AS d FROM t1) SELECT q.n AS n FROM (WITH t AS (SELECT g AS d FROM t2) SELECT count(*) AS n FROM t WHERE d = 'x') AS q".to_string(), false),
     ];
     let (sql, ordered) = templates[rng.below(templates.len() as u64) as usize].clone();
     json!({"sql": sql, "ordered": ordered, "data_seed": rng.next() % 1000000})
